@@ -3,6 +3,7 @@
 from __future__ import annotations
 
 from lcmsa.core import AnalysisError, callee_name, is_term, kw, show, walk
+from lcmsa.alg import _chain_parts
 from lcmsa.formula import Universe, columns, conj, parse, show_formula
 from lcmsa.match import (
     all_frames,
@@ -359,6 +360,10 @@ def qa_order(ctx: Ctx):
             flatten(t[3][0])
         elif t[0] in ("list",) and not t[1]:
             return
+        elif callee_name(t) == "builtins.list" and len(t[2]) == 1 and _chain_parts(t[2][0]) is not None:
+            # list(itertools.chain(a, b, ...)) / chain.from_iterable(f(c) for c in (c1, c2, ...)): same concatenation
+            for part in _chain_parts(t[2][0]):
+                flatten(part)
         else:
             q = query_of(t)
             if q is None:
